@@ -10,8 +10,9 @@ CHECKS = {
         "tools.PriorityQueue refines the arrival-ordered list specification (pop = least priority, earliest arrival), "
         "keeps the heap invariant, loses/duplicates nothing, and ordered iteration restores the queue on all three "
         "restore branches; PosPriorityQueue insert/reschedule_all refine the positional-prefix list model. The model is "
-        "tied to the code on every run by a differential correspondence (same op lines through lean/Drivers/PQ.lean and "
-        "the real classes) plus an independent reference-list oracle on the real code.",
+        "tied to the code on every run twice: by translation (see the end of this text) and by a differential "
+        "correspondence (same op lines through lean/Drivers/PQ.lean and the real classes, arrays compared), plus an "
+        "independent reference-list oracle on the real code.",
    note="Trusted: Lean kernel + {propext, Classical.choice, Quot.sound}; heapq meets its documented contract (HeapLib.Lawful "
         "hypothesis; the executable model transcribes heapq and is compared with the real arrays); list.sort stable; the "
         "translators' reading of Python (Model/PyRt.lean, Model/PosPQRt.lean: lists, for/break/else, aliasing by index, "
@@ -26,9 +27,9 @@ CHECKS = {
         "the queue length only; (3) boost_safe - a boost only touches regular entries inserted more than a queue length ago "
         "whose base priority is above the most urgent regular priority, makes them more urgent by at most "
         "factor*(base-min), never changes class/arrival (positional entries stay first); (4) boost_overtakes - a draw with "
-        "draw*factor>1 puts the straggler ahead of every regular entry. update_counters and compute_priority_boost are "
-        "regenerated from the source by the translator on every run and proved equal to the model's; the rest of the model is "
-        "tied by differential correspondence (counters, boosts, pop order after each op), plus an independent oracle on the "
+        "draw*factor>1 puts the straggler ahead of every regular entry. The whole class is regenerated from the source by the "
+        "translator on every run and proved equal to the model (see the end of this text); in addition a differential "
+        "correspondence (counters, boosts, pop order after each op) and an independent oracle on the "
         "real queue (pops until the straggler runs as a function of length and history; safety of every boost observed).",
    note="Trusted: Lean kernel + standard axioms; the translators' reading of Python (Model/PosPQRt.lean, Model/PyRt.lean; the "
         "random draw named by the entry's sequence number); Rat vs float compared with 1e-9 relative tolerance; random.random()"
